@@ -202,11 +202,17 @@ Lemma element_eq fx shape stride start stop step hs he hst n s' o :
   slice_dim fx shape stride start stop step hs he hst = DSlice n s' o ->
   exists first istep,
     slice_triple fx shape start stop step hs he hst = Some (n, first, istep) /\
-    forall i, o + i * s' = (first + i * istep) * stride.
+    (0 <= first -> forall i, o + i * s' = (first + i * istep) * stride) /\
+    (first < 0 -> o = 0).
 Proof.
   unfold slice_dim, slice_triple.
   destruct (slice_bounds fx shape start stop step hs he hst) as [[[[s0 e0] st0] n0]|]; [|discriminate].
-  intros H. injection H as <- <- <-. exists s0, st0. split; [reflexivity|]. intros i. ring.
+  intros H. injection H as <- <- <-. exists s0, st0. split; [reflexivity|].
+  destruct (Z.ltb_spec s0 0) as [Hneg|Hpos]; split.
+  - intros Hge. lia.
+  - intros _. ring.
+  - intros _ i. ring.
+  - intros Hlt. lia.
 Qed.
 
 Lemma py_clamp_bounds length (neg : bool) v : 0 <= length ->
@@ -397,9 +403,12 @@ Proof.
         as [?|n s o|?] eqn:Hsd; try discriminate.
       destruct (slice_nd fixes_all dr r (off + o)) as [o'' ds| |] eqn:Hr; try discriminate.
       injection H as <- <-.
-      destruct (element_eq _ _ _ _ _ _ _ _ _ _ _ _ Hsd) as (first & istep & Ht & Hoff).
+      destruct (element_eq _ _ _ _ _ _ _ _ _ _ _ _ Hsd) as (first & istep & Ht & Hoff & _).
       pose proof Ht as Ht'. rewrite slice_triple_eq in Ht' by exact Hsh. rewrite !opt_have_oz in Ht'.
       destruct js as [|j jr]; [contradiction|]. destruct Hjs as [Hj Hjr].
+      assert (Hf0 : 0 <= first).
+      { assert (H00 : 0 <= first + 0 * istep < sh) by (eapply offsets_in_bounds; [exact Hsh | exact Ht | lia]). lia. }
+      specialize (Hoff Hf0).
       destruct (IH dr (off + o) o'' ds Hdr Hr jr Hjr) as (ks & Hb & Hbox & Ho).
       exists ((first + j * istep) :: ks). cbn [base_index map fst]. rewrite Ht'.
       assert (Hjb : (0 <=? j) && (j <? n) = true) by lia. rewrite Hjb, Hb.
